@@ -36,6 +36,7 @@ BASES = [
     ('get', b'GET /a?x=1 HTTP/1.1\r\n' + HOST + b'X-A: 1\r\n\r\n'),
     ('post-clen', b'POST /p HTTP/1.1\r\n' + HOST + b'Content-Length: 3\r\n\r\nabc'),
     ('post-chunked', b'POST /c HTTP/1.1\r\n' + HOST + b'Transfer-Encoding: chunked\r\n\r\n3\r\nabc\r\n0\r\n\r\n'),
+    ('get-boom', b'GET /boom HTTP/1.1\r\n' + HOST + b'\r\n'),          # the application itself fails: one 500, nothing else
 ]
 
 
@@ -97,6 +98,8 @@ class App(BaseComponent):
 
     @handler('request', priority=0.5)
     def _on_request(self, event, req, res, *a):
+        if req.path == '/boom':
+            raise RuntimeError('application failure')
         return 'ok %s' % req.path
 
 
@@ -175,7 +178,7 @@ def make_harness(n_mut, truncation=True):
                 raise PathEnd()
             r = resps[0]
             if r['status'] >= 400:
-                if nreq:
+                if nreq and not (bname == 'get-boom' and r['status'] == 500):
                     g.fail('request-event-for-rejected-message', w, detail)
             elif not (200 <= r['status'] < 400):
                 g.fail('unexpected-status', w, detail)
@@ -188,7 +191,7 @@ def make_harness(n_mut, truncation=True):
             if st['closed'] and not says_close:
                 g.fail('closed-but-not-announced', w, detail)
         else:
-            if rig.exceptions and not st['closed']:
+            if [x for x in rig.exceptions if 'application failure' not in x] and not st['closed']:
                 # an internal error that is neither answered nor ends the connection leaves the peer hanging
                 g.fail('internal-error-unanswered', w, detail)
         if full and not disc and len(applied) == 1 and applied[0] in MUST_REJECT:
